@@ -79,6 +79,8 @@ def translators():
   out['Src_scml'] = lambda: translate_scml.translate(REPO)
   import translate_mmc
   out['Src_mmc'] = lambda: translate_mmc.translate(REPO)
+  import translate_sdml
+  out['Src_sdml'] = lambda: translate_sdml.translate(REPO)
   import translate_pins
   out['Src_pins'] = lambda: translate_pins.translate(REPO)
   try:
